@@ -430,7 +430,7 @@ func ExecRun(t *testing.T, prop string, st Stratum, stIdx int, tape *simrt.Tape,
 				if strings.Contains(strings.ToLower(c.Name), "close") {
 					sig := frame
 					if victimOf != "" {
-						sig += "|" + victimOf
+						sig = victimOf // the root of the wait-for chain names the defect, whatever frame the close waits in
 					}
 					r.Fail("C09", "close-never-returned", sig, fmt.Sprintf("close call %s on %s (task %s) had not returned at quiescence after settle; blocked at %s\n%s", c.Name, c.Node, c.Task.ID, frame, shortStack(stk)))
 				}
